@@ -291,7 +291,7 @@ def run(rep, tier, rng):
     unknown = [v for v in sched.slot_lines().values() if v[0] == 'Unknown']
     rep.oblige('T1 every line of node.py / errors.py that mentions one of the three slots is one of the recognised slot actions', not unknown, repr(unknown[:3]))
     cases = []
-    budget = 40 if tier == 'quick' else 700
+    budget = 40 if tier == 'quick' else 300
     for v in VARIANTS:
         with Sandbox() as sb:
             info = profile(make_works(sb, v))
